@@ -21,6 +21,12 @@ def _impl_bodies(crate, adt_name, trait_suffix):
     return out
 
 
+def _unref_const(x):
+    while isinstance(x, tuple) and len(x) == 2 and x[0] == "ref" and isinstance(x[1], tuple) and x[1][0] == "constval":
+        x = x[1][1]
+    return x
+
+
 def _mentions_load_of(t, place):
     return any(s[0] == "load" and s[2] == place for s in subterms(t))
 
@@ -29,6 +35,7 @@ def check_items(col, crate, sfx):
     fk = util.fkey
     free = [b for b in crate.bodies if not b.is_closure and b.kind == "Fn" and b.container is None and b.vis != "pub" and not util.self_recursive(b)]
     A = util.analyser(free)
+    A9 = util.analyser(free, features=("comb", "fncall"))
     lazy = []
     plain = []
     for a in crate.adts:
@@ -165,6 +172,73 @@ def check_items(col, crate, sfx):
                     col.ok("R7" + sfx, nb.loc(), key, "new(v): len = ONE, md = default")
                 else:
                     col.violation("R7" + sfx, key, nb.loc(), "%s::new must create a single-element segment: len = ONE, md = default(), v = argument" % nm)
+
+    # ---------------- R9 what the merges compute: Min*/Max* select the operand the path's comparison of the two values
+    # makes the smaller / larger one, Sum* adds left.v + right.v (the test suite's generator never exercises the order)
+    col.rule("R9" + sfx, "merge of Min*/Max* returns the operand its own comparison makes the smaller/larger; Sum* adds left.v + right.v", floor=6)
+    for nm, a, fields in plain + lazy:
+        impl = _impl_bodies(crate, nm, "SegtreeItem")
+        b = impl["merge"]
+        I = A9(b)
+        lp, rp = ("deref", ("param", 1, I.names.get(1))), ("deref", ("param", 2, I.names.get(2)))
+        V = fields.index("v")
+        lv, rv = ("load", ("m0",), ("field", lp, V)), ("load", ("m0",), ("field", rp, V))
+
+        def side_of(t):
+            """'L' / 'R' when the term is (a clone of) the left / right operand's value or the whole operand"""
+            t = _strip_clone(t)
+            if t in (lv, ("load", ("m0",), lp)):
+                return "L"
+            if t in (rv, ("load", ("m0",), rp)):
+                return "R"
+            return None
+
+        ok, why = bool(I.final_states), ""
+        kind = "min" if nm.startswith("Min") else "max" if nm.startswith("Max") else "sum" if nm.startswith("Sum") else None
+        if kind is None:
+            continue
+        for st in I.final_states:
+            ret = util.ret_term(st)
+            agg = _resolve_ctor(crate, nm, ret, st)
+            val = agg[V] if agg is not None else ret
+            if kind == "sum":
+                v = val
+                good = isinstance(v, tuple) and v and v[0] == "call" and str(v[1]).endswith("Add::add")
+                if good:
+                    args = [x for x in v[2] if not (isinstance(x, tuple) and x and x[0] == "mem")]
+                    good = len(args) == 2 and side_of(args[0]) == "L" and side_of(args[1]) == "R"
+                if not good:
+                    ok, why = False, "the value of the result is %s, not left.v + right.v" % tstr(val)[:90]
+                continue
+            src = side_of(val) if agg is not None else side_of(ret)
+            # which operand the path's comparison makes the smaller one (ties may go either way)
+            smaller = None
+            for f in st.facts:
+                t = f[1]
+                if f[0] not in ("eq", "ne") or f[2] not in (0, 1) or not (isinstance(t, tuple) and t and t[0] == "call" and "PartialOrd" in str(t[1])):
+                    continue
+                op = str(t[1]).rsplit("::", 1)[-1]
+                args = [x for x in t[2] if not (isinstance(x, tuple) and x and x[0] == "mem")]
+                if len(args) != 2 or op not in ("lt", "le", "gt", "ge"):
+                    continue
+                args = [_unref_const(x) for x in args]   # `a < b` on two references compares the referents (std's impl for &A)
+                sides = [("L" if x == ("ref", ("field", lp, V)) else "R" if x == ("ref", ("field", rp, V)) else None) for x in args]
+                if None in sides or sides[0] == sides[1]:
+                    continue
+                truth = (f[0] == "eq") == bool(f[2])
+                first_smaller = truth if op in ("lt", "le") else not truth   # first <(=) second, or !(first >(=) second)
+                smaller = sides[0] if first_smaller else sides[1]
+            if smaller is None or src is None:
+                ok, why = False, "no comparison of left.v with right.v decides this path, or the result is not one of the operands (%s)" % tstr(ret)[:80]
+                continue
+            want = smaller if kind == "min" else ("R" if smaller == "L" else "L")
+            if src != want:
+                ok, why = False, "on the path where %s is the smaller value the merge returns %s" % ("left" if smaller == "L" else "right", "left" if src == "L" else "right")
+        key = "%s|computes-%s" % (fk(b), kind)
+        if ok:
+            col.ok("R9" + sfx, b.loc(), key, {"min": "returns the operand its comparison makes the smaller one", "max": "returns the operand its comparison makes the larger one", "sum": "left.v + right.v"}[kind])
+        else:
+            col.violation("R9" + sfx, key, b.loc(), "%s::merge does not compute the %s of its operands: %s" % (nm, {"min": "minimum", "max": "maximum", "sum": "sum"}[kind], why))
 
     # ---------------- R8 combinator
     impl = _impl_bodies(crate, "Combinator", "SegtreeItem")
